@@ -49,16 +49,17 @@ def gen_case(rng, quick=True):
     b = [rng.choice([1, 1, 2]) for _ in range(dim)]
     nout = rng.choice([1, 1, 2])
     comps = A.gen_comps(rng, dim, nout)
+    comps, ks = LG.scale_comps(rng, comps)          # magnitudes (resume equality is scale-free)
     exact = A.poly_integral(comps, a, b)
     rr = rng.random()
     if rr < 0.55:
-        ref = [float(x) if x != 0 else 1.0 for x in exact]
+        ref = [float(x) if x != 0 else 2.0 ** k for x, k in zip(exact, ks)]
     elif rr < 0.7:
         ref = [0.0] * nout
     else:
         ref = None
     case = dict(strat=strat, a=a, b=b, comps=comps, ref=ref, norm=rng.choice([0, 0, 1, 2]), boundary=True, lmin=1, lmax=2,
-                seed=rng.randrange(1 << 30), errcalc='lib' if rng.random() < 0.5 else ['scripted', rng.randrange(1 << 20)])
+                seed=rng.randrange(1 << 30), errcalc='lib' if rng.random() < 0.5 else ['scripted', rng.randrange(1 << 20)], scales=ks)
     case['reeval'] = rng.random() < 0.4        # performSpatiallyAdaptiv(reevaluate_at_end=True): evaluate_final_combi at every stop
     big = rng.random()
     if strat == 'dw':
@@ -230,7 +231,7 @@ def reevaluation_changes(sa, op, case, ret):
         err, sur = sc.evaluate_operation()
     after = dict(result=A.vec(sc.operation.integral), points=int(sc.get_total_num_points()), structure=structure(sc, case))
     changed = [k for k in ('points', 'structure') if before[k] != after[k]]
-    if not close_vec(before['result'], after['result']):
+    if not close_vec(before['result'], after['result'], LG.magnitude(case)):
         changed.append('result')
     e0, e1 = float(ret[5][-1]), float(err)
     if not (abs(e0 - e1) <= 1e-9 * (abs(e0) + abs(e1)) or e0 == e1):
@@ -355,21 +356,22 @@ def impl_run(case):
 # ---------------------------------------------------------------------------------------------- comparison
 
 
-def close_vec(a, b):
+def close_vec(a, b, mag=1.0):
+    """equal up to rounding RELATIVE to the magnitude of the problem (mag: bound for the size of the terms that are summed)"""
     for x, y in zip(a, b):
         u, v = A.unfl(x), A.unfl(y)
-        if not (abs(u - v) <= TOL * (abs(u) + abs(v) + 1)):
+        if not (abs(u - v) <= TOL * (abs(u) + abs(v) + mag)):
             return False
     return len(a) == len(b)
 
 
-def same_end(fin, single):
+def same_end(fin, single, mag=1.0):
     diffs = []
     if fin['structure']['objs'] != single['structure']['objs'] or fin['structure']['lmax'] != single['structure']['lmax']:
         diffs.append('structure')
     if fin['structure']['scheme'] != single['structure']['scheme']:
         diffs.append('scheme')
-    if not close_vec(fin['result'], single['result']):
+    if not close_vec(fin['result'], single['result'], mag):
         diffs.append('result')
     if fin['points'] != single['points']:
         diffs.append('points')
@@ -413,7 +415,7 @@ def check_case(chk, case, r, mjobs):
                 fcase.pop(key, None)
             final = recs[-1]['snap']
             complete = len(recs) == len(legs) and not recs[-1].get('runaway')
-            diffs = same_end(final, single) + ([] if complete else ['does-not-stop (aborted by the harness at 4x the points)'])
+            diffs = same_end(final, single, LG.magnitude(case)) + ([] if complete else ['does-not-stop (aborted by the harness at 4x the points)'])
             # stream position of every stop (every continuation re-evaluates the position it starts from; a restart empties the arrays)
             stops, off = [], 0
             for j, rec in enumerate(recs):
@@ -544,6 +546,8 @@ def run(chk):
     mjobs, todo, keys, samples = [], [], [], []
     for c, (st, r) in zip(cases, impl):
         chk.count('strat=' + c['strat']); chk.count('ref=' + ('none' if c['ref'] is None else 'zero' if all(x == 0 for x in c['ref']) else 'given'))
+        sc = c.get('scales') or [0]
+        chk.count('integrand scale 2^k: %s' % ('k=0' if set(sc) == {0} else 'mixed over components' if len(set(sc)) > 1 else 'k=%d' % sc[0]))
         chk.count('reevaluate_at_end=%s' % bool(c.get('reeval'))); chk.count('dim=%d' % len(c['a'])); chk.count('norm=%d' % c['norm'])
         for k in ('version', 'rebalancing', 'nrbe', 'auto', 'grid', 'ggrid', 'single_dim', 'margin', 'boundary'):
             if k in c:
@@ -592,7 +596,7 @@ def run(chk):
             samples.append(dict(strat=c['strat'], uninterrupted=leg_text(r['single_leg'], True), uninterrupted_points=ssnap['num_points'],
                                 histories=[dict(history='; '.join(leg_text(l, j == 0, x['legs']) for j, l in enumerate(x['legs'])),
                                                 final_points=x['recs'][-1]['snap']['points'],
-                                                same=not same_end(x['recs'][-1]['snap'], ssnap)) for x in r['runs']]))
+                                                same=not same_end(x['recs'][-1]['snap'], ssnap, LG.magnitude(c))) for x in r['runs']]))
     mres = run_model(14, mjobs)
     for ev in todo:
         ev(mres)
